@@ -437,6 +437,15 @@ func runC20(c *Ctx) {
 			c20History(c, ops)
 		}
 	}
+	// long words: lengths around every plausible bound of an implementation (255, 256, 257, 1024, 4096 ...), sharing prefixes with
+	// short words and with each other
+	for _, L := range []int{200, 255, 256, 257, 300, 400, 1023, 1025, 5000} {
+		w1 := strings.Repeat("ab", L/2) + strings.Repeat("a", L%2)
+		w2 := w1[:L-1] + "c"
+		w3 := "zq_" + strings.Repeat("x", L)
+		c20One(c, [][]byte{[]byte("ab"), []byte(w1), []byte(w2), []byte("aba"), []byte(w3)}, [][]byte{nil, []byte("a"), []byte("ab"), []byte(w1[:L-1]), []byte(w1), []byte(w2), []byte("zq_"), []byte(w3), []byte(w1 + "a")})
+		c20History(c, []string{"I" + w1, "Iab", "T" + w1[:10], "Dvzq_" + strings.Repeat("y", L), "Tzq_", "T" + w1, "I" + w2, "T" + w1[:L-1]})
+	}
 	hn := 600
 	if c.Thorough() {
 		hn = 30000
